@@ -338,6 +338,23 @@ pub fn run(out: &mut Out, tier: &str, seed: u64, prop: &str) {
                 if (ab == std::cmp::Ordering::Equal) != (a.tree == b.tree) { out.oracle_fail("C16", "cmp returns Equal for != markers (or not Equal for == markers)", input.clone()); }
                 if ab != ba.reverse() { out.oracle_fail("C16", "cmp is not antisymmetric", input.clone()); }
                 if a.tree == b.tree && hash_of(&a.tree) != hash_of(&b.tree) { out.oracle_fail("C16", "equal markers hash differently", input.clone()); }
+                if a.tree.partial_cmp(&b.tree) != Some(ab) { out.oracle_fail("C16", "partial_cmp differs from cmp", input.clone()); }
+                {
+                    // the view types of `kind()` order like the markers they are views of
+                    use pep508_rs::MarkerTreeKind as K;
+                    let views = match (a.tree.kind(), b.tree.kind()) {
+                        (K::Version(x), K::Version(y)) => Some((x.partial_cmp(&y), x.cmp(&y))),
+                        (K::String(x), K::String(y)) => Some((x.partial_cmp(&y), x.cmp(&y))),
+                        (K::In(x), K::In(y)) => Some((x.partial_cmp(&y), x.cmp(&y))),
+                        (K::Contains(x), K::Contains(y)) => Some((x.partial_cmp(&y), x.cmp(&y))),
+                        (K::Extra(x), K::Extra(y)) => Some((x.partial_cmp(&y), x.cmp(&y))),
+                        _ => None,
+                    };
+                    if let Some((p, c)) = views {
+                        out.stat("c16.same_kind_views");
+                        if p != Some(c) || c != ab { out.oracle_fail("C16", "the kind() views of two markers order differently from the markers (or partial_cmp differs from cmp)", input.clone()); }
+                    }
+                }
                 let (bc, ac) = (b.tree.cmp(&c.tree), a.tree.cmp(&c.tree));
                 if ab != std::cmp::Ordering::Greater && bc != std::cmp::Ordering::Greater && ac == std::cmp::Ordering::Greater { out.oracle_fail("C16", "cmp is not transitive", input.clone()); }
                 if ab != std::cmp::Ordering::Equal { out.nontrivial(format!("{}|{}", a.dump, b.dump)); }
